@@ -3,6 +3,10 @@
 // argument/result, arrays element by element), exception-mode abort capture.
 #include "world.hpp"
 
+// what the guest passes to the callback instead of its own parameter (set by the callback-arg path)
+static thread_local bool g_cb_arg_override_on = false;
+static thread_local uint64_t g_cb_arg_override = 0;
+
 using namespace rlbox;
 using ref::i128;
 
@@ -176,8 +180,6 @@ static void run_type(mon::Rng& rng, const vsbx_library& lib)
     // the guest forwards its second parameter to the callback; give it g by
     // overriding what it passes
     world::W<Cfg>::template ret_override<G>::on = false;
-    extern thread_local bool g_cb_arg_override_on;
-    extern thread_local uint64_t g_cb_arg_override;
     g_cb_arg_override_on = true;
     g_cb_arg_override = static_cast<uint64_t>(g);
     ab = mon::aborts([&] { Wd::template invoke<T(T (*)(T), T)>(sb, cb_name.c_str(), cb, T(0)); });
@@ -276,8 +278,6 @@ static void run_type(mon::Rng& rng, const vsbx_library& lib)
   sb.destroy_sandbox();
 }
 
-thread_local bool g_cb_arg_override_on = false;
-thread_local uint64_t g_cb_arg_override = 0;
 
 // guest function: calls the callback with x (or the override), returns result
 template<typename Cfg, typename Gt>
